@@ -1,11 +1,18 @@
 from lib_json import *
+import lib_stringify as LS
 
 EXPLANATION = ('JSONUtils::Escape enforced as an exact transduction into valid JSON string content: every input unit is accounted for once and in order; '
                'a unit is passed verbatim only inside a slice in which it is not a quote, not a backslash and not a control character below 0x20; '
-               'every other unit is written as a valid JSON escape that denotes exactly that unit (short escape or \\\\uXXXX).')
-TRUSTED = ['QV::GStream::Write and operator+= are call-protocol contracts over ghost scalars (g_next, g_pending, g_state, g_acc)',
-           'paper step: per-position admissibility for the arbitrary ghost position g_i gives whole-output validity by concatenation']
-ASSUMPTIONS = ['tree-level stringify/parse round trip (Value) is not under contract']
+               'every other unit is written as a valid JSON escape that denotes exactly that unit (short escape or \\\\uXXXX). '
+               'The Value<char> stringifier (stringifyValue / stringifyArray / stringifyObject / Stringify, real template text with the verification stream) is enforced '
+               'through its mutual recursion: every value but Undefined writes a text, a container of any size is written from its opener to its closer with no comma '
+               'left before the closer, a pointer value writes the text of its target.')
+TRUSTED = ['QV::GStream::Write and operator+= are call-protocol contracts over ghost scalars (g_next, g_pending, g_state, g_acc; g_emit, g_last for the stringifier)',
+           'paper step: per-position admissibility for the arbitrary ghost position g_i gives whole-output validity by concatenation',
+           'Digit::NumberToString writes at least one unit (assumed contract in the stringifier jobs); String::First/Length are opaque there']
+ASSUMPTIONS = ['tree-level stringify/parse round trip (Value) is not under contract: the stringifier contracts state the bracket/comma/closer discipline and that no member text is empty, not the full grammar of the output',
+               'Value trees are well-formed: Array storage_ holds index_ elements, HashTable is one block of capacity_ bucket heads and capacity_ item slots, a pointer value refers to a live Value',
+               'container sizes up to 2^24 elements (arrays) / 2^20 slots (objects)']
 
 GH = [('unsigned int', 'g_next'), ('unsigned int', 'g_len'), ('unsigned int', 'g_i'), ('unsigned int', 'g_pending'),
       ('_Bool', 'g_pend_valid'), ('unsigned int', 'g_state'), ('unsigned int', 'g_acc')]
@@ -93,4 +100,5 @@ def jobs(tier):
                         solver='cadical', timeout=900, objbits=10, split=8, cex_K=4,
                         must_have=['postcondition', 'loop_invariant_step', 'loop_decreases', 'precondition'],
                         clause='string escaping emits valid JSON string content that denotes exactly the input, for strings of every length'))
+    out += LS.jobs()
     return out
